@@ -181,7 +181,9 @@ func xgChangeset(r *Rng) *osm.Changeset {
 	return c
 }
 
-func xgNoteDate(r *Rng) osm.Date { return osm.Date{Time: time.Unix(1300000000+r.I64n(200000000), 0).UTC()} }
+func xgNoteDate(r *Rng) osm.Date {
+	return osm.Date{Time: time.Unix(1300000000+r.I64n(200000000), 0).UTC()}
+}
 
 func xgNote(r *Rng) *osm.Note {
 	n := &osm.Note{ID: osm.NoteID(1 + r.Intn(1<<30)), Lat: xgFloat(r), Lon: xgFloat(r), DateCreated: xgNoteDate(r), Status: []osm.NoteStatus{osm.NoteOpen, osm.NoteClosed}[r.Intn(2)]}
